@@ -564,6 +564,7 @@ func runC07(seed uint64, n int, tier string, outDir string) []*Stats {
 
 	// --- fixed corpus of known findings, then real builds with marker programs
 	glueKnownFindings(st)
+	cutProbes(st)
 	glueN := n / 25
 	if glueN < 8 {
 		glueN = 8
@@ -1586,4 +1587,102 @@ func genBuilderInCase(r *Rng, st *Stats) string {
 	st.Note("builder-in", text+strings.Join(evs, "")+fmt.Sprint(ms), nev > 1 && len(ms) > 1)
 	return fmt.Sprintf("(%s,[%s],%s,[%s],%s,%s,%s,%s,%s,%s,%d,%s)", CBytes([]byte(text)), strings.Join(ml, ";"), CZList(inNameIDs), strings.Join(evs, ";"), CBytes(fin),
 		CBytes(ch.Buffer.Data), CZ(fnoOf(ch.Buffer.FirstNameOffset)), CZList(nameIDs), stateFields(es), CBool(es.HasOriginalName), ch.FinalGeneratedColumn, CBool(ch.ShouldIgnore))
+}
+
+// ---------------------------------------------------------------------------
+// Directed probes for the "clean cut" hypothesis of builder_spec_on_concatenated_output:
+// the printers call AddSourceMapping with the whole buffer and the builder
+// measures only the new suffix, so a mapping recorded right after a printed CR
+// whose LF comes next (or inside a UTF-8 sequence) would count one line break
+// too many for everything that follows. Inputs put CR / CRLF / U+2028 /
+// non-ASCII text into every construct the printers copy verbatim (comments of
+// all kinds, template literals, line continuations, hashbang, JSX text, CSS
+// comments and strings) followed by marker identifiers; every mapping whose
+// original position is a marker must land on the same marker in the output.
+
+var cutMarkerRe = regexp.MustCompile(`^\.?mk[0-9]+`)
+
+func cutProbes(st *Stats) {
+	type probe struct {
+		name   string
+		loader api.Loader
+		src    string
+	}
+	probes := []probe{
+		{"js-block-comment-crlf", api.LoaderJS, "/*! a\r\nb */ mk1;\r\nmk2(mk3);"},
+		{"js-block-comment-lone-cr", api.LoaderJS, "/*! legal\rcomment\r*/\rmk1(mk2);\rmk3;"},
+		{"js-comment-ends-with-cr-before-star", api.LoaderJS, "mk1(/* c\r*/ mk2, /* d\r\n*/ mk3);\nmk4;"},
+		{"js-template-crlf", api.LoaderJS, "mk1(`x\r\ny\r${mk2}\r\n`, mk3);\r\nmk4;"},
+		{"js-tagged-template-cr", api.LoaderJS, "mk1`a\rb\r\n${mk2}\r`;\nmk3;"},
+		{"js-hashbang-crlf", api.LoaderJS, "#!/usr/bin/env node\r\nmk1;mk2;\r\nmk3;"},
+		{"js-line-comment-crlf", api.LoaderJS, "//! legal\r\nmk1;\r\n//! again\rmk2;"},
+		{"js-line-continuation", api.LoaderJS, "mk1('a\\\r\nb', mk2);\r\nmk3('c\\\rd');mk4;"},
+		{"js-import-comment", api.LoaderJS, "import(/* webpackChunkName: 'x'\r */ './a' /* t\r\n */).then(mk1);\nmk2;"},
+		{"js-u2028", api.LoaderJS, "/*! a b */ mk1(`q ${mk2} `); mk3;"},
+		{"js-nonascii", api.LoaderJS, "/*! é😀 */ mk1('é😀', mk2);\r\n/* ü */ mk3(`😀${mk4}é`);"},
+		{"jsx-text-crlf", api.LoaderJSX, "mk1 = <div a=\"x\r\ny\">\r\n  text\r\n  {mk2}\r\n</div>;\r\nmk3;"},
+		{"ts-comment-crlf", api.LoaderTS, "/*! t\r\n*/\r\nlet mk1: number = mk2 as /* c\r */ any;\r\nmk3;"},
+		{"css-comment-crlf", api.LoaderCSS, "/*! legal\r\ncomment\r*/\r\n.mk1 { color: red }\r\n.mk2::after { content: 'a\\\r\nb' }\r.mk3 { background: url( 'x' ) }"},
+		{"css-nonascii", api.LoaderCSS, "/*! é😀 */ .mk1 { content: 'é😀' } .mk2 { color: blue }\r\n@media (min-width: 1px) {\r\n .mk3 { color: red }\r\n}"},
+	}
+	for _, pr := range probes {
+		for variant := 0; variant < 4; variant++ {
+			opts := api.TransformOptions{Loader: pr.loader, Sourcemap: api.SourceMapExternal, Sourcefile: "in.src", LogLevel: api.LogLevelSilent,
+				MinifyWhitespace: variant&1 != 0, LegalComments: api.LegalCommentsInline}
+			if variant&2 != 0 {
+				opts.LegalComments = api.LegalCommentsEndOfFile
+				opts.Charset = api.CharsetUTF8
+			}
+			res := api.Transform(pr.src, opts)
+			input := map[string]interface{}{"scenario": "cut-probe-" + pr.name, "source": pr.src, "variant": variant}
+			if len(res.Errors) > 0 {
+				st.Fail("cut-probe-error", input, res.Errors[0].Text, "no error")
+				continue
+			}
+			var sm smJSON
+			if err := json.Unmarshal(res.Map, &sm); err != nil {
+				st.Fail("cut-probe-map-json", input, string(res.Map), "JSON")
+				continue
+			}
+			segs, ok := decodeMappings([]byte(sm.Mappings))
+			if !ok {
+				st.Fail("cut-probe-undecodable", input, sm.Mappings, "decodable")
+				continue
+			}
+			verified := 0
+			for si, a := range segs {
+				if !a.hasSrc {
+					continue
+				}
+				if a.gc == 0 && si > 0 && segs[si-1].hasSrc && segs[si-1].ol == a.ol && segs[si-1].c == a.c && !a.hasName {
+					continue // a column-0 cover copy of the previous mapping
+				}
+				oo := offsetOfLineCol([]byte(pr.src), a.ol, a.c)
+				mk := cutMarkerRe.FindString(pr.src[oo:])
+				if mk == "" {
+					continue
+				}
+				ol2, oc2 := lineColOf([]byte(pr.src), oo)
+				if ol2 != a.ol || oc2 != a.c {
+					continue // the original position is past the end of its line: not a marker start
+				}
+				gl, gcol := lineColOf(res.Code, offsetOfLineCol(res.Code, a.gl, a.gc))
+				g := offsetOfLineCol(res.Code, a.gl, a.gc)
+				rest := string(res.Code[g:])
+				if pr.loader == api.LoaderCSS {
+					// css_printer deliberately maps the indentation in front of a nested rule to the rule
+					rest = strings.TrimLeft(rest, " \t")
+				}
+				if gl != a.gl || gcol != a.gc || !strings.HasPrefix(rest, mk) {
+					st.Fail("cut-probe-position", input, fmt.Sprintf("mapping (%d,%d)->(%d,%d) lands on %q", a.gl, a.gc, a.ol, a.c, clip(string(res.Code[g:]))), "the marker "+mk)
+				}
+				verified++
+			}
+			st.Note("cut-probe", pr.name+fmt.Sprint(variant), verified > 0)
+			st.Histogram["cut-probe-markers-verified"] += verified
+			if verified == 0 {
+				st.Fail("cut-probe-vacuous", input, string(res.Code), "at least one marker mapping")
+			}
+		}
+	}
 }
